@@ -50,14 +50,34 @@ type c35Channel struct {
 	mu    sync.Mutex
 	recvs []c35Recv
 	sent  int
+	// onSend, when set, is called for every Send (the loop test loops the
+	// member's own confirmation back to its receivers like the real channel)
+	onSend func(m net.TaggedMarshaler)
 }
 
 func (c *c35Channel) Name() string { return "c35" }
 func (c *c35Channel) Send(ctx context.Context, m net.TaggedMarshaler, s ...net.RetransmissionStrategy) error {
 	c.mu.Lock()
 	c.sent++
+	onSend := c.onSend
 	c.mu.Unlock()
+	if onSend != nil {
+		onSend(m)
+	}
 	return nil
+}
+
+// live returns the receivers whose context is not done.
+func (c *c35Channel) live() []c35Recv {
+	c.mu.Lock()
+	defer c.mu.Unlock()
+	var out []c35Recv
+	for _, r := range c.recvs {
+		if r.ctx.Err() == nil {
+			out = append(out, r)
+		}
+	}
+	return out
 }
 func (c *c35Channel) Recv(ctx context.Context, handler func(m net.Message)) {
 	c.mu.Lock()
